@@ -7,11 +7,14 @@ sys.path.insert(0, os.path.join(os.path.dirname(os.path.abspath(__file__)), ".."
 import vf
 
 IDSZ = 13
+IDLEN_MAX = 12
 FNV_INIT, FNV_PRIME = 33554467, 0x01000193
 ALNUM = b"abcdefghijklmnopqrstuvwxyzABCDEFGHIJKLMNOPQRSTUVWXYZ0123456789"
 ALPHA = ALNUM[:52]
 ADD, REMOVE, SET, SEARCH, DOSEARCH, GETID, WRITE, LOAD, RESET, UNLOAD, ATTACH, ATTACH_HDR, BATTERY, BUCKETS = 10, 11, 12, 13, 14, 15, 20, 21, 22, 23, 25, 26, 30, 31
 BBS_RELOAD = 27
+BY2 = 29   # (BY2, mode, op): op is executed by a second process attached to the existing segment (mode 1: NewSHM with the create flag); its Shm.IsNew is false
+BY2_OPS = (ADD, REMOVE, SET, SEARCH, DOSEARCH, GETID, LOAD)
 
 
 def pad(b):
@@ -22,8 +25,14 @@ def cpre(b):
     return bytes(b).split(b"\0")[0]
 
 
+_FOLD = {}
+
+
 def fold(b):
-    return cpre(b).lower()
+    v = _FOLD.get(b)
+    if v is None:
+        v = _FOLD[bytes(b)] = cpre(b).lower()
+    return v
 
 
 def pyhash(b, bits=16):
@@ -44,6 +53,8 @@ def toks(b):
 
 def op_line(o):
     k = o[0]
+    if k == BY2:
+        return "%d %d %s" % (k, o[1], op_line(o[2]))
     if k in (ADD, SET):
         return "%d %d %s" % (k, o[1], toks(pad(o[2])))
     if k in (REMOVE, GETID):
@@ -75,13 +86,22 @@ class Ref:
         self.wild = True          # after Shm.Reset every head points at slot 0: not a state the property speaks about
         self.off_premise = False  # an operation outside the property's premises was issued; only the correspondence is judged from here on
         self.battery, self.buckets = [], []
+        self._hm = None
 
     def holders(self, q):
-        return {s + 1 for s in self.indexed if fold(self.table[s]) == fold(q)}
+        """uids of the indexed slots whose WHOLE id equals q up to letter case (never a prefix, never an extension)"""
+        if self._hm is None:
+            self._hm = {}
+            for s in self.indexed:
+                self._hm.setdefault(fold(self.table[s]), set()).add(s + 1)
+        return self._hm.get(fold(q), set())
 
     def apply(self, o):
         """-> expected (status, code) or None when the property does not fix it"""
         k = o[0]
+        self._hm = None
+        if k == BY2:                          # the same memory: who executes the operation must not matter
+            return self.apply(o[2])
         if k == ADD:
             slot = o[1]
             if not 0 <= slot < self.maxu:
@@ -136,8 +156,12 @@ def parse(line, ops, maxu):
         return None
     i, out = 1, []
     for o in ops:
+        if i == len(t) and out and out[-1][0] == 2:      # the driver abandons a history after a step that did not return
+            break
         st, code = t[i], t[i + 1]; i += 2
         extra = None
+        if o[0] == BY2:
+            o = o[2]
         if o[0] in (SEARCH, DOSEARCH, GETID):
             extra = bytes(t[i:i + IDSZ]); i += IDSZ
         elif o[0] == ATTACH:
@@ -157,17 +181,37 @@ def parse(line, ops, maxu):
 def judge(ops, line, maxu, hdr):
     """first step where the implementation's own outputs contradict the property -> None | (step, key, text)"""
     obs = parse(line, ops, maxu)
+    if obs is None and line.split()[:1] == ["2"]:
+        # the first process itself did not come back before the driver's deadline; ops was cut at the operation that does not return
+        r = Ref(maxu); r.hdr = hdr
+        for o in ops[:-1]:
+            r.apply(o)
+        if r.off_premise:
+            return None
+        pre = "Number/Loaded = %d/%d, %s" % (r.number, r.loaded, "not loaded since Shm.Reset / creation (every head and link 0)" if r.wild else "%d slots indexed" % len(r.indexed))
+        r.apply(ops[-1])
+        if r.off_premise:
+            return None
+        return (len(ops) - 1, "hang", "%s executed by the first process (the creator of the segment) does not return on a segment with %s" % (
+            {LOAD: "LoadUHash()", BBS_RELOAD: "bbs.ReloadUHash"}.get(ops[-1][0], "op %d" % ops[-1][0]), pre))
     if obs is None:
         return (0, "driver", "case status " + line[:20])
     r = Ref(maxu); r.hdr = hdr
     for n, (o, ob) in enumerate(zip(ops, obs)):
         st, code, extra, number, loaded, nonempty, chains, ids, looks = ob
+        pre = "Number/Loaded = %d/%d, %s" % (r.number, r.loaded, "not loaded since Shm.Reset / creation (every head and link 0)" if r.wild else "%d slots indexed" % len(r.indexed))
         exp = r.apply(o)
         if r.off_premise:
             return None
+        who = ""
+        if o[0] == BY2:
+            who = " executed by a second process (attached to the existing segment with NewSHM(isCreate=%s), IsNew=false)" % ("true" if o[1] else "false")
+            o = o[2]
         name = {ADD: "AddToUHash", REMOVE: "RemoveFromUHash", SET: "SetUserID", SEARCH: "SearchUserRaw", DOSEARCH: "DoSearchUserRaw", GETID: "GetUserID", LOAD: "LoadUHash",
                 ATTACH: "attach by a second process", ATTACH_HDR: "attach with header"}.get(o[0], "op %d" % o[0])
-        desc = "%s%s" % (name, tuple(cpre(x) if isinstance(x, (bytes, bytearray)) else x for x in o[1:]) if o[0] not in (WRITE, BATTERY, BUCKETS) else "")
+        desc = "%s%s%s" % (name, tuple(cpre(x) if isinstance(x, (bytes, bytearray)) else x for x in o[1:]) if o[0] not in (WRITE, BATTERY, BUCKETS) else "", who)
+        if st == 2 and o[0] == LOAD:
+            desc += " on a segment with " + pre
         if st in (1, 2) and exp is not None:
             return (n, "crash" if st == 1 else "hang", "%s %s" % (desc, "panics" if st == 1 else "does not return"))
         if exp is not None and (st, code) != exp and o[0] not in (SEARCH, DOSEARCH, GETID):
@@ -178,6 +222,9 @@ def judge(ops, line, maxu, hdr):
             q = pad(o[1]); hold = r.holders(q)
             if o[0] == SEARCH and q[0] == 0:
                 hold = set()
+            if o[0] == DOSEARCH and q[0] == 0 and code != 0 and code not in hold:
+                return (n, "free-slot-search-occupied", "%s (the search for a free slot: the empty id) returns %d, which holds %r; slots holding the empty id: %s" % (
+                    desc, code, cpre(r.table[code - 1]) if 1 <= code <= maxu else None, sorted(hold)[:8]))
             if (code not in hold) if hold else code != 0:
                 return (n, "lookup-miss" if hold else "lookup-ghost", "%s returns %d; slots holding that id (any case): %s" % (desc, code, sorted(hold)))
             want = r.table[code - 1] if code and q[0] else pad(b"")
@@ -239,6 +286,9 @@ def main():
     bits = hashn.bit_length() - 1
     hdr = (shmver, shmsz)
     c.count(1, "constants")
+    isnew = both(["4"], "the harness's first process created the segment (cache.Shm.IsNew), the processes of op 29 did not")[0].split()
+    if isnew != ["0", "1"]:
+        c.broken.append({"kind": "harness", "where": "go/impl/cmd/implrun/c04.go", "theorem": "the driver's first process is the creator of its segment", "log": " ".join(isnew)})
 
     # ---------------------------------------------------------------- ID pool: 16-bit collision families, case twins
     def rand_id(lo=2, hi=12):
@@ -260,7 +310,60 @@ def main():
     fams = sorted((v for v in by_bucket.values() if len(v) >= 3), key=lambda v: (-len(v), v))[:3]
     with_empty = by_bucket.get(empty_bucket, [])[:2]
     plain = [b"SYSOP", b"guest", b"alice", b"Bob2", b"a1", b"Zz", b"twelvechars1"]
-    pool = [i for f in fams for i in f[:5]] + with_empty + plain
+
+    # prefix-related ids on ONE chain: (short, long) collide in the hash and short is a proper prefix of long. A lookup that compares only up to the
+    # end of the queried (or of the stored) id confuses exactly these; ids that do not collide never meet on a chain.
+    mask = (1 << bits) - 1
+    FOLDED = b"ABCDEFGHIJKLMNOPQRSTUVWXYZ0123456789"
+
+    def fnv_state(b, h=FNV_INIT):
+        for ch in bytes(b):
+            if 97 <= ch <= 122:
+                ch -= 32
+            h = ((h ^ ch) * FNV_PRIME) & 0xffffffff
+        return h
+
+    def recase(b):
+        return bytes(ch + 32 if 65 <= ch <= 90 and rng.random() < 0.6 else ch for ch in b)
+
+    def extend(base, lo, hi):
+        """a colliding proper extension of base by lo..hi characters -> bytes | None"""
+        target = fnv_state(base) & mask
+        frontier = [(fnv_state(base), b"")]
+        for n in range(1, hi + 1):
+            nxt = []
+            for st0, suf in frontier:
+                for ch in FOLDED:
+                    st1 = ((st0 ^ ch) * FNV_PRIME) & 0xffffffff
+                    if n >= lo and st1 & mask == target:
+                        return base + recase(suf + bytes([ch]))
+                    nxt.append((st1, suf + bytes([ch])))
+            frontier = nxt
+        return None
+
+    one_more, longer, ptries = [], [], 0
+    while len(one_more) < 2 and ptries < 20000:               # same id + ONE extra character (36 candidates per base, one in ~1800 bases collides)
+        ptries += 1
+        base = rand_id(2, 7)
+        e = extend(base, 1, 1)
+        if e is not None and base.lower() not in {x[0].lower() for x in one_more}:
+            one_more.append((base, e))
+    while len(longer) < 2 and ptries < 20100:                 # a proper extension by two or three characters, and an extension of the extension (a triple on one chain)
+        ptries += 1
+        base = rand_id(2, 5)
+        e = extend(base, 2, 3)
+        if e is not None:
+            e2 = extend(e, 2, 3)
+            longer.append((base, e) if e2 is None else (base, e, e2))
+    empty_ext = []                                              # the empty id is a prefix of every id: ids of ITS bucket, and a colliding extension of one of them
+    for w in with_empty[:1]:
+        e = extend(w, 2, 3)
+        empty_ext = [w] + ([e] if e is not None else [])
+    prefix_chains = [list(t) for t in one_more + longer] + ([[b""] + empty_ext] if empty_ext else [])
+    prefix_ids = [i for t in prefix_chains for i in t if i]
+    if len(one_more) < 1 or len(longer) < 1 or not with_empty:
+        c.broken.append({"kind": "harness", "where": "checks/C04.py prefix pairs", "theorem": "the id pool contains colliding prefix pairs", "log": "%r %r %r" % (one_more, longer, with_empty)})
+    pool = [i for f in fams for i in f[:5]] + with_empty + plain + [i for i in prefix_ids if i not in with_empty]
     full = []                                                # 50 pairwise distinct ids for full tables: whole families first
     for f in sorted(by_bucket.values(), key=lambda v: (-len(v), v)):
         for i in f:
@@ -272,6 +375,8 @@ def main():
     for i in pool + full[:6]:
         queries += [i, i.upper(), i.lower(), i.swapcase()]
     queries += [b"", junk, b"nobody", b"ALICEx", b"alic", b"\0alice", b"al\0ice"] + [rand_id() for _ in range(6)]
+    for i in prefix_ids:                                       # near misses of the prefix-related ids: one character less, one more, a different last one
+        queries += [i[:-1], i[:-1].upper(), (i + b"x")[:IDLEN_MAX], (i + b"0")[:IDLEN_MAX].upper(), i[:-1] + b"_", i[:1]]
     battery = sorted(set(pad(q) for q in queries))
     buckets = sorted({pyhash(i, bits) for i in pool + full + spare + [b"", junk, b"bob"] + [cpre(q) for q in battery]})
 
@@ -285,11 +390,33 @@ def main():
             break
 
     # ---------------------------------------------------------------- histories
-    def start(file_ids):
-        return [(BUCKETS, buckets), (BATTERY, battery), (WRITE, file_ids), (LOAD,)]
+    def start(file_ids, loader=(LOAD,)):
+        return [(BUCKETS, buckets), (BATTERY, battery), (WRITE, file_ids), loader]
 
-    def gen_history(n, style):
+    def narrow(ops, ids):
+        """the same history with a lookup battery about the ids it uses (4 letter cases, one character less / more / different, the fixed near misses) instead of the
+        whole pool's: the extracted model hashes every query after every step in binary arithmetic"""
+        qs = [b"", junk, b"nobody", b"ALICEx", b"alic", b"al\0ice"]
+        for i in ids:
+            if i:
+                qs += [i, i.upper(), i.lower(), i.swapcase(), i[:-1], (i + b"x")[:IDLEN_MAX], i[:-1] + b"_"]
+        bat = sorted(set(pad(q) for q in qs))
+        return [(BATTERY, bat) if o[0] == BATTERY else o for o in ops]
+
+    def second(o, mode=None):
+        return (BY2, rng.randrange(2) if mode is None else mode, o)
+
+    def agreeing(ops, nrec=maxu):
+        """(WRITE, the .PASSWDS that agrees with the live table after ops)"""
         r = Ref(maxu); r.hdr = hdr
+        for o in ops:
+            r.apply(o)
+        return (WRITE, [cpre(t) for t in r.table[:nrec]])
+
+    def gen_history(n, style, p2=0.1):
+        """p2: share of the operations that a second, attached process executes instead of the creator"""
+        r = Ref(maxu); r.hdr = hdr
+        by = lambda o: second(o) if o[0] in BY2_OPS and rng.random() < p2 else o
         if style == "full":
             file_ids = list(full)
         elif style == "short":
@@ -298,7 +425,9 @@ def main():
             some = rng.sample(pool, rng.randrange(0, min(len(pool), 12)))
             file_ids = (some + [b""] * maxu)[:maxu]
             rng.shuffle(file_ids)
-        ops = start(file_ids)
+        ops = start(file_ids, by((LOAD,)))
+        # every history looks up its own random 96 of the pool's queries (plus the fixed ones) after every step; the scenarios above use complete, focused batteries
+        ops[1] = (BATTERY, sorted(set(rng.sample(battery, min(len(battery), 96))) | {pad(b""), pad(junk), pad(b"nobody")}))
         for o in ops:
             r.apply(o)
         free_ids = lambda: [i for i in pool + ([junk] if style != "full" else []) if not r.holders(i)] or [i for i in spare if not r.holders(i)] or pool
@@ -322,13 +451,19 @@ def main():
                     continue
                 o = (ADD, rng.choice(freeslots), rng.choice(free_ids()))
             elif x < 0.75:
-                q = rng.choice(battery + [r.table[s] for s in r.indexed][:10])
-                o = (rng.choice([SEARCH, SEARCH, DOSEARCH]), rng.choice([q, q.upper(), q.lower()]))
+                q = rng.choice(r.battery + [r.table[s] for s in r.indexed][:10])
+                kind = rng.choice([SEARCH, SEARCH, DOSEARCH])
+                if kind == DOSEARCH and rng.random() < 0.35:
+                    q = b""                                   # the free-slot search of the registration: must answer a slot that holds the empty id
+                elif rng.random() < 0.3:
+                    q = rng.choice(prefix_ids or [q])
+                    q = rng.choice([q, q[:-1], q + b"x"])[:IDLEN_MAX]
+                o = (kind, rng.choice([q, q.upper(), q.lower()]))
             elif x < 0.78:
                 o = (GETID, rng.choice([1, maxu, slot + 1, 0, maxu + 1]))
             elif x < 0.86:                                                                       # reload into the populated segment from an agreeing file
                 nrec = maxu if rng.random() < 0.7 else rng.randrange(0, maxu + 1)
-                for o in ((WRITE, [cpre(t) if rng.random() < 0.8 else t for t in r.table[:nrec]]), (LOAD,)):
+                for o in ((WRITE, [cpre(t) if rng.random() < 0.8 else t for t in r.table[:nrec]]), by((LOAD,))):
                     r.apply(o); ops.append(o)
                 continue
             elif x < 0.91:                                                                       # cold load over whatever the segment holds
@@ -338,7 +473,7 @@ def main():
                     for i in newfile:
                         nf.append(b"" if i.lower() in seenf else i); seenf.add(i.lower())
                     newfile = nf
-                for o in ((UNLOAD,) if rng.random() < 0.6 else (RESET,), (WRITE, newfile), (LOAD,)):
+                for o in ((UNLOAD,) if rng.random() < 0.6 else (RESET,), (WRITE, newfile), by((LOAD,))):
                     r.apply(o); ops.append(o)
                 continue
             elif x < 0.955:
@@ -347,6 +482,7 @@ def main():
                 o = (ATTACH_HDR, rng.choice([shmver, shmver + 1, 0]), rng.choice([shmsz, shmsz, shmsz - 4]))
             else:
                 continue
+            o = by(o)
             r.apply(o); ops.append(o)
         return ops
 
@@ -359,47 +495,151 @@ def main():
                              (SET, 2, f[0]), (SET, 1, b"alice"), (SET, 2, f[1].swapcase()), (WRITE, [b""] * maxu), (LOAD,), (ATTACH,)])
         cases.append(start(list(full)) + [(REMOVE, s) for s in range(0, maxu, 3)] + [(ADD, s, full[s].upper()) for s in range(0, maxu, 3)] + [(ATTACH,), (WRITE, [x.upper() for x in full]), (LOAD,)])
     for u in range(1, maxu + 1):                               # every slot once
-        cases.append(start([b""] * maxu) + [(SET, u, pool[u % len(pool)]), (SEARCH, pool[u % len(pool)].swapcase()), (REMOVE, u - 1), (SEARCH, pool[u % len(pool)]), (ADD, u - 1, b"alice"), (SET, u, b"ALICE")])
+        cases.append(narrow(start([b""] * maxu) + [(SET, u, pool[u % len(pool)]), (SEARCH, pool[u % len(pool)].swapcase()), (REMOVE, u - 1), (SEARCH, pool[u % len(pool)]), (ADD, u - 1, b"alice"), (SET, u, b"ALICE")],
+                            [pool[u % len(pool)], pool[(u + 1) % len(pool)], b"alice"]))
+    # prefix-related ids on one chain, every order of arrival: the longer first / the shorter first, through SetUserID and through a cold load; each id looked up
+    # (battery: 4 letter cases, near misses) while only the other ones are present, while all are, and after each is removed again; DoSearchUserRaw too (rightID)
+    n_before_prefix = len(cases)
+    for ch in prefix_chains:
+        for order in (list(reversed(ch)), list(ch)):
+            live = [i for i in order if i]
+            ops = start([b""] * maxu)
+            looks = lambda: [(DOSEARCH, i.swapcase()) for i in ch] + [(SEARCH, ch[-1][:-1])]
+            for u, i in enumerate(live):
+                ops += [(SET, u + 3, i)] + looks()
+            ops += [(ATTACH,), second((DOSEARCH, ch[0]), 0)]
+            for u, i in enumerate(live):
+                ops += [(REMOVE, u + 2)] + looks()
+            cases.append(narrow(ops, ch + [b"guest"]))
+            filed = [b"guest"] + order + [b"", b""]              # cold load: records in this order, the empty id (if in the chain) as a free slot between them
+            cases.append(narrow(start(filed) + looks() + [(REMOVE, 1)] + looks() + [(SET, 2, order[0] or b"Zz")] + looks() + [(REMOVE, len(order))] + looks() + [agreeing(start(filed) + [(REMOVE, 1), (SET, 2, order[0] or b"Zz"), (REMOVE, len(order))], len(filed)), second((LOAD,), 1)] + looks(), ch + [b"guest", b"Zz"]))
+    n_prefix = len(cases) - n_before_prefix
     # outside the premises (correspondence only): a reload from a file that disagrees, AddToUHash on a slot that is on a chain
     cases.append(start([b"alice", b"Bob2"] + [b""] * (maxu - 2)) + [(WRITE, [b"Bob2", b"alice"] + [b""] * (maxu - 2)), (LOAD,), (SEARCH, b"alice"), (SET, 1, b"guest")])
     cases.append(start([b""] * maxu) + [(SET, 1, b"alice"), (ADD, 0, b"alice"), (ADD, 0, b"Zz"), (REMOVE, 0), (LOAD,)])
+    # load / reload in every segment state x by the creator and by a second process (attached without / with the create flag):
+    #   zeroed (just created or Shm.Reset: Number = Loaded = 0, every head and link 0), reset after a previous life, unloaded with the old
+    #   chains left behind, loaded, loaded then modified; each followed by lookups from a third process, operations by both processes
+    #   and a reload by the OTHER process
+    actors = [("creator", lambda o: o), ("second process", lambda o: second(o, 0)), ("second process started with the create flag", lambda o: second(o, 1))]
+    fam = fams[0][:4] if fams else [b"Bob2", b"a1"]
+    files = [("empty .PASSWDS", []), ("short .PASSWDS", [b"SYSOP", b"", fam[0], b"alice", fam[1]]), ("full .PASSWDS", list(full)),
+             ("collisions", ([b"SYSOP", b"alice"] + fam + with_empty + [b""] * maxu)[:maxu])]
+    matrix = []
+
+    for ai_, (aname, act) in enumerate(actors):
+        other = actors[(ai_ + 1) % len(actors)][1]
+        for fname, f in files:
+            def tail(ops):
+                ops = ops + [(ATTACH,), act((SEARCH, (f[0] if f else b"nobody").swapcase())), act((SET, 7, b"Bob2")), other((SET, 8, b"a1")), (REMOVE, 6), act((REMOVE, 0)),
+                             other((ADD, 0, b"twelvechars1")), act((GETID, 1))]
+                return ops + [agreeing(ops), other((LOAD,)), (ATTACH,)]
+            prev = start([b"guest", fam[-1], b"Zz"] + [b""] * 5 + [fam[0].swapcase()]) + [(SET, 3, fam[1]), (REMOVE, 0)]
+            for sname, pre in (("zeroed", [(BUCKETS, buckets), (BATTERY, battery)]), ("reset after a previous life", prev + [(RESET,)]), ("unloaded, old chains left behind", prev + [(UNLOAD,)])):
+                matrix.append(("cold load by the %s, segment %s, %s" % (aname, sname, fname), tail(pre + [(WRITE, f), act((LOAD,))])))
+            ops = start(f, other((LOAD,)))
+            oname = actors[(ai_ + 1) % len(actors)][0]
+            matrix.append(("first load (zeroed segment) by the %s, reload by the %s, segment loaded, %s" % (oname, aname, fname), tail(ops + [agreeing(ops, len(f)), act((LOAD,))])))
+            ops = ops + [other((SET, 9, b"guest")), (REMOVE, 1)]
+            matrix.append(("first load (zeroed segment) by the %s, reload by the %s, segment loaded then modified, %s" % (oname, aname, fname), tail(ops + [agreeing(ops), act((LOAD,))])))
+    for name, ops in matrix:
+        r = Ref(maxu); r.hdr = hdr
+        for o in ops:
+            r.apply(o)
+        if r.off_premise:
+            c.broken.append({"kind": "harness", "where": "checks/C04.py matrix", "theorem": "the load matrix stays inside the property's premises", "log": name})
+    n_single = len(cases)
+    cases += [narrow(ops, [i for i in (full[:2] + full[-1:] + files[1][1] + files[3][1][:8] + [b"guest", b"Bob2", b"a1", b"twelvechars1"]) if i]) for _, ops in matrix]
     n_fixed = len(cases)
     n_hist = 1500 if thorough else 70
     for i in range(n_hist):
-        cases.append(gen_history(rng.randrange(5, 61), ["mixed", "mixed", "full", "short", "mixed"][i % 5]))
+        cases.append(gen_history(rng.randrange(5, 61), ["mixed", "mixed", "full", "short", "mixed"][i % 5], p2=[0.1, 0.0, 0.5, 0.15, 0.9, 0.1, 0.3][i % 7]))
 
     lines = [case_line(ops) for ops in cases]
     shown = ["1|" + " | ".join(str(tuple(cpre(x) if isinstance(x, bytes) else x for x in o)) if o[0] not in (WRITE, BATTERY, BUCKETS) else "%d <%d ids>" % (o[0], len(o[1])) for o in ops) for ops in cases]
-    io = both(lines, "histories (returns, chains of the pool's buckets, all stored ids, lookup battery, second process)", shown)
+    label = "histories (returns, chains of the pool's buckets, all stored ids, lookup battery, operations executed by a second process)"
+    case_deadline = int(os.environ.get("VERIF_C04_CASE_DEADLINE_MS", "15000"))     # a history takes well under a second
+    io = vf.run_impl(impl, "C04", lines, deadline_ms=case_deadline, max_hangs=2)
+    vf.ipc_cleanup()
+    SLOW = {"VERIF_C04_PROC2_DEADLINE_MS": "12000"}
+
+    def locate(ops):
+        """the whole case ran into the driver's deadline (an operation of the first process does not return): the first load at which a prefix does"""
+        for k_, o in enumerate(ops):
+            if o[0] in (LOAD, BBS_RELOAD) and vf.run_impl(impl, "C04", [case_line(ops[:k_ + 1])], deadline_ms=8000)[0].split()[:1] == ["2"]:
+                vf.ipc_cleanup()
+                return ops[:k_ + 1]
+        return ops
+
+    # a "did not return" verdict depends on a deadline: the first ones are re-run with more time (second process: 12 s instead of 2.5 s; first process: twice
+    # the case deadline) before anything is concluded from them
+    confirm, confirm_first, skipped, verdicts = 2, 1, 0, {}
+    for ci, (ops, line) in enumerate(zip(cases, io)):
+        if line == "7":
+            skipped += 1
+            continue
+        if line.split()[:1] == ["2"]:
+            ops = locate(ops)
+            line = "2"
+        bad = judge(ops, line, maxu, hdr)
+        if bad is not None and bad[1] == "hang" and (confirm_first if line == "2" else confirm) > 0:
+            if line == "2":
+                confirm_first -= 1
+            else:
+                confirm -= 1
+            again = vf.run_impl(impl, "C04", [case_line(ops)], deadline_ms=2 * case_deadline if line == "2" else 60000, env=SLOW)[0]
+            vf.ipc_cleanup()
+            if judge(ops, again, maxu, hdr) != bad:
+                confirm, confirm_first = confirm + 1, 1
+                c.cov["slow_steps_rerun"] = c.cov.get("slow_steps_rerun", 0) + 1
+                if ops is cases[ci]:
+                    io[ci] = again
+                bad = judge(ops, again, maxu, hdr)
+        verdicts[ci] = (ops, bad)
+    if skipped:
+        c.cov["histories_not_run_after_two_hangs_of_the_first_process"] = skipped
+    if model:
+        keep = [i for i in range(len(cases)) if io[i] != "7"]
+        vf.correspond(c, label, [shown[i] for i in keep], [io[i] for i in keep], vf.run_model(model, [lines[i] for i in keep]))
 
     found = set()
-    for ci, (ops, line) in enumerate(zip(cases, io)):
+    for ci, ops in enumerate(cases):
         r = Ref(maxu); r.hdr = hdr
         for o in ops:
             r.apply(o)
             if not r.off_premise and o[0] not in (BATTERY, BUCKETS):
                 c.nontrivial((o[0], o[1:] if o[0] != WRITE else tuple(o[1]), tuple(sorted(r.indexed)), tuple(r.table)))
-        c.count(len(ops) - 2, "fixed-scenario steps" if ci < n_fixed else "generated-history steps")
-        c.count((len(ops) - 2) * len(battery), "lookups after a step")
-        bad = judge(ops, line, maxu, hdr)
+        c.count(len(ops) - 2, "single-slot / chain scenario steps" if ci < n_single else "load-matrix steps (segment state x loading process)" if ci < n_fixed else "generated-history steps")
+        c.count((len(ops) - 2) * max(len(o[1]) for o in ops if o[0] == BATTERY), "lookups after a step")
+        c.count(sum(1 for o in ops if o[0] == BY2), "operations executed by a second, attached process")
+        if ci not in verdicts:
+            continue
+        ops, bad = verdicts[ci]
         if bad is None or bad[1] in found:
             continue
         found.add(bad[1])
         step, key, text = bad
         cur = ops[:step + 1]
-        j = 4
-        while j < len(cur) - 1:                                   # shrink: drop earlier operations while the same class still fails at the last step
+        j, trials = 4, 0
+        while j < len(cur) - 1 and (key != "hang" or trials < 6):    # shrink: drop earlier operations while the same class still fails at the last step
             trial = cur[:j] + cur[j + 1:]
+            trials += 1
             b2 = judge(trial, vf.run_impl(impl, "C04", [case_line(trial)])[0], maxu, hdr)
             if b2 is not None and b2[1] == key and b2[0] == len(trial) - 1:
                 cur, text = trial, b2[2]
             else:
                 j += 1
+        if key == "hang":
+            vf.ipc_cleanup()
         rep = {"cases": [case_line(cur)], "history": [str(o) if o[0] not in (BATTERY, BUCKETS) else "%d <%d>" % (o[0], len(o[1])) for o in cur]}
+        if n_single <= ci < n_fixed:
+            rep["scenario"] = matrix[ci - n_single][0]
         if model:
             ml = vf.run_model(model, [case_line(cur)])[0]
-            if ml != vf.run_impl(impl, "C04", [case_line(cur)])[0]:
+            if key == "hang" or ml != vf.run_impl(impl, "C04", [case_line(cur)])[0]:
                 rep["expected"] = ml
+        if key == "hang":
+            rep["got"] = "status 2 at the last step (the process executing it was killed at the deadline); replay: build/implrun C04 < the case line"
         c.violation(key, text + "  [history: %s]" % rep["history"][2:], rep)
     # ---------------------------------------------------------------- reload through bbs.ReloadUHash (sysop only): implementation only, differential
     # the same history three ways: reload asked by SYSOP, by a plain user, and issued directly with cache.LoadUHash
@@ -407,23 +647,32 @@ def main():
     tbl = tbl[:maxu]
     pre = start(tbl) + [(SET, 4, b"Zz"), (REMOVE, 2), (WRITE, [b"SYSOP", b"alice", tbl[2], b"Zz"] + tbl[4:])]
     trio = [pre + [(BBS_RELOAD, b"SYSOP")], pre + [(BBS_RELOAD, b"alice")], pre + [(LOAD,)], pre + [(BBS_RELOAD, b"nobody")], pre + [(BBS_RELOAD, b"sysop")]]
-    to = vf.run_impl(impl, "C04", [case_line(t) for t in trio])
+    to = vf.run_impl(impl, "C04", [case_line(t) for t in trio], deadline_ms=case_deadline, max_hangs=1)
     c.count(len(trio), "bbs.ReloadUHash scenarios")
+    if any(l.split()[:1] != ["0"] for l in to):                # a history does not come back at all: the first process hangs in a load (located and reported above)
+        vf.ipc_cleanup()
+        if "hang" not in found:
+            bi = [i for i, l in enumerate(to) if l.split()[:1] != ["0"]][0]
+            cut = locate(trio[bi])
+            c.violation("hang", "%s does not return  [history: %s]" % ("bbs.ReloadUHash" if cut[-1][0] == BBS_RELOAD else "LoadUHash()", [str(o) for o in cut[2:]]), {"cases": [case_line(cut)]})
+        c.cov["bbs_reload"] = "not compared: the scenario does not return (status %s)" % [l.split()[0] for l in to]
+        trio = []
 
     def last_step(line, ops):
         ob = parse(line, [o if o[0] != BBS_RELOAD else (LOAD,) for o in ops], maxu)
         return ob[-1], ob[-2]
-    (s_sys, s_prev), (s_usr, u_prev), (s_dir, _), (s_nob, n_prev), (s_low, l_prev) = (last_step(l, t) for l, t in zip(to, trio))
-    if s_sys[:2] != (0, 0) or s_sys[3:] != s_dir[3:]:
-        c.violation("bbs-reload-sysop", "bbs.ReloadUHash(SYSOP) returns %s and leaves an index different from the one cache.LoadUHash builds" % (s_sys[:2],), {"cases": [case_line(trio[0]), case_line(trio[2])]})
-    for nm, (a, b) in (("alice", (s_usr, u_prev)), ("nobody", (s_nob, n_prev))):
-        if a[0] != 3 or a[3:] != b[3:]:
-            c.violation("bbs-reload-non-sysop", "bbs.ReloadUHash(%s) (not a sysop) returns status %d and %s the index" % (nm, a[0], "changes" if a[3:] != b[3:] else "keeps"), {"cases": [case_line(trio[1])]})
-    if s_low[3:] != (s_dir[3:] if s_low[0] == 0 else l_prev[3:]):
-        c.violation("bbs-reload-case", "bbs.ReloadUHash(sysop) returns status %d and leaves an index that is neither the reloaded nor the previous one" % s_low[0], {"cases": [case_line(trio[4])]})
-    if judge(trio[2], to[2], maxu, hdr) is not None:
-        c.violation("bbs-reload-baseline", "the direct reload of the scenario is itself judged wrong: %s" % (judge(trio[2], to[2], maxu, hdr),), {"cases": [case_line(trio[2])]})
-    c.cov["bbs_reload"] = {"sysop": list(s_sys[:2]), "plain_user": list(s_usr[:2]), "unknown_user": list(s_nob[:2]), "sysop_lower_case": list(s_low[:2])}
+    if trio:
+        (s_sys, s_prev), (s_usr, u_prev), (s_dir, _), (s_nob, n_prev), (s_low, l_prev) = (last_step(l, t) for l, t in zip(to, trio))
+        if s_sys[:2] != (0, 0) or s_sys[3:] != s_dir[3:]:
+            c.violation("bbs-reload-sysop", "bbs.ReloadUHash(SYSOP) returns %s and leaves an index different from the one cache.LoadUHash builds" % (s_sys[:2],), {"cases": [case_line(trio[0]), case_line(trio[2])]})
+        for nm, (a, b) in (("alice", (s_usr, u_prev)), ("nobody", (s_nob, n_prev))):
+            if a[0] != 3 or a[3:] != b[3:]:
+                c.violation("bbs-reload-non-sysop", "bbs.ReloadUHash(%s) (not a sysop) returns status %d and %s the index" % (nm, a[0], "changes" if a[3:] != b[3:] else "keeps"), {"cases": [case_line(trio[1])]})
+        if s_low[3:] != (s_dir[3:] if s_low[0] == 0 else l_prev[3:]):
+            c.violation("bbs-reload-case", "bbs.ReloadUHash(sysop) returns status %d and leaves an index that is neither the reloaded nor the previous one" % s_low[0], {"cases": [case_line(trio[4])]})
+        if judge(trio[2], to[2], maxu, hdr) is not None:
+            c.violation("bbs-reload-baseline", "the direct reload of the scenario is itself judged wrong: %s" % (judge(trio[2], to[2], maxu, hdr),), {"cases": [case_line(trio[2])]})
+        c.cov["bbs_reload"] = {"sysop": list(s_sys[:2]), "plain_user": list(s_usr[:2]), "unknown_user": list(s_nob[:2]), "sysop_lower_case": list(s_low[:2])}
 
     lens = {}
     for ops, line in zip(cases, io):
@@ -433,20 +682,31 @@ def main():
                 lens[len(slots)] = lens.get(len(slots), 0) + 1
     c.cov["chain_length_histogram_over_observed_buckets"] = {str(k_): v for k_, v in sorted(lens.items())}
     c.cov["pool"] = {"collision_families": [[i.decode() for i in f[:5]] for f in fams], "colliding_with_the_empty_id": [i.decode() for i in with_empty],
+                     "prefix_chains (colliding ids, each a proper prefix of the next)": [[i.decode() for i in t] for t in prefix_chains], "prefix_scenarios": n_prefix,
                      "battery_size": len(battery), "buckets_watched": len(buckets), "ids_tried_for_collisions": tries}
     c.sample({"history": shown[n_fixed][:1500], "result_prefix": " ".join(io[n_fixed].split()[:60])})
     c.sample({"history": shown[0][:1200]})
     c.cov["exhaustive_parts"] = ["every slot 1..%d: set, lookup in swapped case, remove, lookup, add, rename to a case twin" % maxu,
                                  "a %d-id collision family: remove head / middle / tail, re-add, rename within and across buckets" % (len(fams[0][:5]) if fams else 0),
-                                 "a full table of %d ids: remove and re-add every third slot, reload from an agreeing file" % maxu]
+                                 "a full table of %d ids: remove and re-add every third slot, reload from an agreeing file" % maxu,
+                                 "%d prefix scenarios over %d chains of colliding ids in which each id is a proper prefix of the next (one extra character; two or three extra characters; triples; "
+                                 "the empty id with ids of its own bucket): every order of arrival through SetUserID and through a cold load, every id looked up in 4 letter cases with one character less / more / "
+                                 "different while only the others are present, while all are, after each removal; DoSearchUserRaw of the empty id (free-slot search)" % (n_prefix, len(prefix_chains)),
+                                 "load matrix, %d scenarios: {cold load of a zeroed (just created / Shm.Reset) segment, of a segment reset after a previous life, of an unloaded segment with the old chains "
+                                 "left behind; reload of a loaded segment; reload of a loaded-then-modified segment} x {executed by the creator, by a second process attached with NewSHM(isCreate=false), "
+                                 "by a second process started with NewSHM(isCreate=true)} x {empty, short, full, colliding .PASSWDS}, each followed by lookups from a third process, set / remove / add by both "
+                                 "processes and a reload by the other process" % len(matrix)]
     vf.ipc_cleanup()
     c.finish(rule="one case = a history on a zeroed segment: write .PASSWDS, LoadUHash, then up to 60 of SetUserID / RemoveFromUHash / AddToUHash (only on a slot that is on no chain) / SearchUserRaw / "
-                  "reload from an agreeing .PASSWDS / cold load over the dirty or reset segment / attach by a second process; ids from a pool of 16-bit collision families (one with the empty id's bucket), "
-                  "case twins, a 12-byte id, junk after the NUL, full 50-id tables; after every step the chains of all watched buckets, the count of non-empty heads, all stored ids and %d lookups "
-                  "(every pool id in 4 letter cases, near misses) are compared with the extracted model and judged against the check's reference dict; a step is distinct by (operation, arguments, "
+                  "reload from an agreeing .PASSWDS / cold load over the dirty or reset segment / attach by a second process; every operation, the first load included, is executed either by the process "
+                  "that created the segment or (0 to 90 percent of the operations of a history) by a second process that attached to the existing segment with or without the create flag (IsNew false) "
+                  "and is killed when it does not answer within 2.5 s (status 2 = does not terminate; the first two such verdicts are re-run with 12 s); ids from a pool of 16-bit collision families (one with the empty id's bucket), colliding prefix chains (an id, the id plus one character, plus two or three, "
+                  "the empty id and ids of its bucket), case twins, a 12-byte id, junk after the NUL, full 50-id tables; after every step the chains of all watched buckets, the count of non-empty heads, all stored ids and a battery of lookups (scenarios: every id they use in 4 letter cases plus near misses; generated histories: a random 96 of the pool's %d) "
+                  "are compared with the extracted model and judged against the check's reference dict; a step is distinct by (operation, arguments, "
                   "reference state after it)" % len(battery),
              assumptions=["types.Cstrcmp/Cstrcasecmp == 0 are re-specified as equality of the (case-folded) NUL-terminated prefixes (C18 is about those functions)",
-                          "one writer at a time (concurrent registrations are C15)", "SysV shmget/shmat give every attached process the same bytes",
+                          "one writer at a time (concurrent registrations are C15): the second process runs its operation while the first one waits, so two LoadUHash calls racing each other are not driven",
+                          "an operation of a second process that has not returned after 2.5 s (12 s on the re-run; LoadUHash over 2^16 buckets and 50 records takes milliseconds) never returns", "SysV shmget/shmat give every attached process the same bytes",
                           "killUser does not release the slot in the index (C03's finding, row 19 of DESIGN section 6); this check drives cache.* only"])
 
 
